@@ -1,6 +1,6 @@
 (* C17 — lookup data handed out by the library cannot be corrupted by callers. *)
 From Coq Require Import List.
-From GV Require Import Tables.Copies.
+From GV Require Import Tables.Copies Tables.Alias Tables.AliasFacts Gen.AliasGen Tables.AliasGenFacts.
 
 (* In the object-identity model of the copy discipline (each lookup allocates a fresh
    object holding a copy of the library's table; callers address objects only): for every
@@ -12,3 +12,31 @@ Theorem C17_private_partial :
     In (Some out) (crun s ops) -> out = master s.
 Proof. intros data. exact copies_private. Qed.
 Print Assumptions C17_private_partial.
+
+(* TIE T-gen.  alias_functions is the alias IR of every function of veproduct and veconst
+   that returns a map or a slice, transcribed from the current source on every run.  The
+   check accepts all of them ... *)
+Theorem C17_lookups_fresh : all_fresh alias_functions = true.
+Proof. exact lookups_all_fresh. Qed.
+Print Assumptions C17_lookups_fresh.
+
+(* ... they include the product string map, IntToStringMap of every enum and field-list
+   factory of the observation tables, and the Fields/Decode methods ... *)
+Theorem C17_lookups_covered : covered = true.
+Proof. exact lookups_covered. Qed.
+Print Assumptions C17_lookups_covered.
+
+(* ... and an accepted function, on every run of its flattened body (its statements in any
+   order, any number of times — every loop and branch structure), leaves the package-level
+   variables as they were, returns only objects it allocated itself, and writes to no object
+   that existed before: the map a caller receives is reachable from nowhere else, so nothing a
+   caller does to it is visible to any later call. *)
+Theorem C17_fresh_sound : forall (fs : list afun) o f s0 trace,
+  all_fresh fs = true -> In f fs -> oracle_ok (fresh_set fs) o ->
+  Forall (fun st => In st (af_body f)) trace -> locals s0 = [] -> returned s0 = [] ->
+  let s := run_trace o s0 trace in
+  globals s = globals s0 /\
+  (forall l, In l (returned s) -> next s0 <= l < next s) /\
+  (forall l, In l (written s) -> In l (written s0) \/ next s0 <= l < next s).
+Proof. exact all_fresh_sound. Qed.
+Print Assumptions C17_fresh_sound.
